@@ -282,9 +282,25 @@ void C18Exec::prepare(C18Outcome &out) {
             OpSlot &s = slots[t][i];
             std::string why;
             AmbientReads rd0 = ambientReads();
+            auto reportSoloTraps = [&]() {
+                for (auto &tr : trapTake()) {
+                    JP v = mkViolation(
+                        "I1-static-write", op, t, (int)i,
+                        "store to library-owned static storage '" + trapSymbol(tr.addr) +
+                            "' while executing " + op.brief() +
+                            " alone (sequential phase); two threads making this call would race",
+                        trapSymbol(tr.addr));
+                    if (out.violations.size() < 8) {
+                        v->set("case", caseWith({{0, 0}}));
+                        out.violations.push_back(v);
+                    }
+                }
+                trapRearm();
+            };
             bool attrOk = false;
             // the reference copy has thread-local storage of its own: it, too, runs on a thread without history
             schedRunOnFreshThread([&]() { attrOk = attributable(op, s.ref, why); });
+            reportSoloTraps();  // stores of the reference (default-configuration) copy to ITS static storage
             if (!attrOk) {
                 s.dropped = true;
                 s.dropWhy = why;
@@ -354,19 +370,7 @@ void C18Exec::prepare(C18Outcome &out) {
                 heapAudit(&ctx, true);
             s.failedSolo = ctx.failed;
             out.soloSteps += s.soloSteps;
-            for (auto &tr : trapTake()) {
-                JP v = mkViolation(
-                    "I1-static-write", op, t, (int)i,
-                    "store to library-owned static storage '" + trapSymbol(tr.addr) +
-                        "' while executing " + op.brief() +
-                        " alone (sequential phase); two threads making this call would race",
-                    trapSymbol(tr.addr));
-                if (out.violations.size() < 8) {
-                    v->set("case", caseWith({{0, 0}}));
-                    out.violations.push_back(v);
-                }
-            }
-            trapRearm();
+            reportSoloTraps();
             if (s.expected.constChanged > 0 && out.violations.size() < 8) {
                 JP v = mkViolation(
                     "I2-const-input-write", op, t, (int)i,
